@@ -613,7 +613,8 @@ class X12Writer(X12Base):
         @type id: string
         """
         ele_term = self.ele_term
+        # a header without a control number is closed by a trailer without one
         seg_str = '{seg_id}{ele_term}{count:d}{ele_term}{id}'.format(\
-            seg_id=seg_id, ele_term=ele_term, count=count, id=id)
+            seg_id=seg_id, ele_term=ele_term, count=count, id='' if id is None else id)
         return pyx12.segment.Segment(seg_str, self.seg_term, self.ele_term,
                                      self.subele_term)
